@@ -29,6 +29,9 @@ pub enum Pat {
     Blocks,
     /// first two thirds constant (symbol 0), last third periodic over 1..sigma
     ConstThenPeriodic,
+    /// as ConstThenPeriodic, but the very last element is the heavy symbol 0 again (its last
+    /// occurrence is isolated from the bulk)
+    ConstPeriodicOne,
 }
 
 pub fn tiny_count(k: u32, len: u32) -> u64 {
@@ -85,6 +88,13 @@ impl Gen {
                         Pat::Blocks => {
                             let b = (n + s as usize - 1) / s as usize;
                             (i / b.max(1)) as u32
+                        }
+                        Pat::ConstPeriodicOne => {
+                            if i < 2 * n / 3 || s == 1 || i == n - 1 {
+                                0
+                            } else {
+                                1 + (i as u32) % (s - 1)
+                            }
                         }
                         Pat::ConstThenPeriodic => {
                             if i < 2 * n / 3 || s == 1 {
